@@ -114,11 +114,12 @@ pub fn show(i: i128) -> String {
 
 /// Stratified instant generator shared by several monitors.
 /// strata: 0 era boundary ±5 d, 1 low range end, 2 high range end, 3 1970±80 y, 4 uniform,
-/// 5 second-aligned near 0001, 6 exact day boundaries ± few ns, 7 years 1..9999
+/// 5 second-aligned near 0001, 6 exact day boundaries ± few ns, 7 years 1..9999,
+/// 8 at a "magic magnitude" (2^k of some unit) from 0001-01-01 or 1970-01-01, 9 within a second of a range end
 pub fn gen_instant(rng: &mut crate::core::Rng, margin_days: i128) -> (i128, u8) {
     let lo = MIN_INSTANT + margin_days * D;
     let hi = MAX_INSTANT - margin_days * D;
-    let s = rng.below(8) as u8;
+    let s = rng.below(10) as u8;
     let i = match s {
         0 => rng.range_i128(-5 * D, 5 * D),
         1 => lo + rng.range_i128(0, 3 * D),
@@ -133,6 +134,11 @@ pub fn gen_instant(rng: &mut crate::core::Rng, margin_days: i128) -> (i128, u8) 
                 _ => rng.range_i128(lo / D + 1, hi / D - 1),
             };
             day * D + *rng.pick(&[-2i128, -1, 0, 1, 2, NS - 1, NS, -NS, D - 1])
+        }
+        8 => super::magic::gen_instant_at(rng, lo, hi),
+        9 => {
+            let e = *rng.pick(&[0i128, 0, 1, NS - 1, NS, NS + 1]) + if rng.chance(1, 2) { rng.range_i128(0, NS - 1) } else { 0 };
+            if rng.chance(1, 2) { lo + e } else { hi - e }
         }
         _ => rng.range_i128(0, cal::days_from_civil(9999, 12, 31) as i128 * D + D - 1),
     };
